@@ -27,6 +27,22 @@ CHECKS['C10'] = dict(level='exploration',
     note='Trusted: file name held constant across modes; locales limited to those installed.',
     design='DESIGN.md §2 C10')
 
+CHECKS['C08'] = dict(level='exploration',
+    technique='runtime monitoring: metamorphic oracles over terminator conversion (purity, substitution, commutation, census majority) on real executions',
+    text='Per (corpus file, base config) ~17 executions: output under lf/crlf/cr must contain only that terminator, crlf/cr outputs must be the lf output with terminators substituted, formatting the CRLF/CR/mixed conversions of the input must give the same bytes, and newlines=auto must follow the majority the tokenizer can count (T dump census). Known lone-CR defects are keyed by the construct the break lies in.',
+    note='Trusted: T dump newline census for the auto clause; UTF-16 inputs are left to C09.',
+    design='DESIGN.md §2 C08')
+CHECKS['C11'] = dict(level='exploration',
+    technique='runtime monitoring: differential oracle batch-vs-single over ordered poisoner/victim pairs and seeded file sequences',
+    text='Ordered pairs (31 hand-written state-poisoning files x victims) and seeded sequences of 3..12 files are run as one invocation (positional, -F list, mixed; with and without -l) and every member output is compared byte for byte with its single-invocation output; exit status and created files are compared too.',
+    note='Trusted: single-invocation runs as reference (C10 monitors their determinism).',
+    design='DESIGN.md §2 C11')
+CHECKS['C12'] = dict(level='exploration',
+    technique='runtime monitoring: ground-truth oracle for --check/--if-changed with directory snapshots (inode, size, mtime, ctime, mode, bytes)',
+    text='For each (corpus file, config): the file, its formatted version and 10 one-byte/size/terminator/BOM perturbations are given to --check singly and in batches; exit status and PASS/FAIL lines are compared with the truth from a normal run, the directory snapshot must be unchanged; --if-changed is run in 5 output modes and must write nothing for reproduced files and exactly the normal bytes otherwise.',
+    note='Trusted: a normal -f run as ground truth (tied to the other modes by C10).',
+    design='DESIGN.md §2 C12')
+
 ALL = ['C%02d' % i for i in range(1, 21)]
 
 
